@@ -38,7 +38,7 @@ ASSUMPTIONS = [
 ]
 TIERS = {"quick": (160, 80, 120), "thorough": (10000, 600, 180)}
 
-KEEP_CANDIDATES = ["power", "flux", "vP0", "vP1", "vF0", "temperatureInC", "numberDensities", "height", "keff", "vSent"]
+KEEP_CANDIDATES = ["power", "flux", "vP0", "vP1", "vF0", "temperatureInC", "numberDensities", "height", "keff", "vSent", "mgFlux", "vP2"]
 SET_PARAMS = ["vP0", "vP1", "vP2", "vF0", "vI0", "vS0", "vSent"]
 
 
@@ -54,8 +54,17 @@ def gen_plan(rng, index, tier):
         uid += 1
         r = rng.random()
         if r < 0.16 and depth < 4:
-            steps.append({"op": "enter", "level": rng.choice(["reactor", "core", "assembly", "block", "component"]), "idx": rng.randrange(1000), "keep": sorted(rng.sample(KEEP_CANDIDATES, rng.choice([0, 0, 1, 2, 3])))})
+            steps.append({"op": "enter", "level": rng.choice(["reactor", "core", "assembly", "block", "component"]), "idx": rng.randrange(1000), "keep": sorted(rng.sample(KEEP_CANDIDATES, rng.choice([0, 0, 1, 2, 3]))), "coldcache": rng.random() < 0.5})
             depth += 1
+        elif r < 0.19 and depth < 3:
+            # two nested scopes on one object that keep the same parameter; it is assigned in the
+            # inner one only (value kinds: scalar, array, dict) and must survive both exits
+            lvl, idx, prm = rng.choice(["core", "assembly", "block", "component"]), rng.randrange(1000), rng.choice(["vP0", "vP1", "vP2"])
+            ent = {"op": "enter", "level": lvl, "idx": idx, "keep": sorted({prm} | set(rng.sample(KEEP_CANDIDATES, rng.choice([0, 1]))))}
+            steps += [dict(ent), dict(ent), {"op": "setp", "level": lvl, "idx": idx, "param": prm, "vkind": rng.choice(["arr", "arr", "arrn", "float", "dict"]), "u": uid}, {"op": "exit"}, {"op": "exit"}]
+        elif r < 0.205:
+            # a dimension assigned directly (no setter, nothing invalidated) and the block's area looked at
+            steps.append({"op": "dimcache", "idx": rng.randrange(1000), "factor": rng.choice([0.97, 0.99, 1.02])})
         elif r < 0.28 and depth > 0:
             steps.append({"op": rng.choice(["exit", "exit", "exit_exc"])})
             depth -= 1
@@ -295,6 +304,18 @@ class Runner:
             b = blks[st["idx"] % len(blks)]
             b.setHeight(b.getHeight() * st["factor"])
             self.edits += 1
+        elif op == "dimcache" and not self.readonly:
+            from armi.reactor.components import basicShapes
+
+            # (the fuel slug: room to the clad on the outside, nothing inside - the geometry stays valid)
+            comps = [c for c in c06.objects_at_level(r, "component") if type(c) is basicShapes.Circle and c.name == "fuel" and isinstance(c.p.od, float) and c.parent is not None]
+            comps = [c for c in comps if 0.5 < c.p.od * st["factor"] < 0.95]
+            if comps:
+                c = comps[st["idx"] % len(comps)]
+                c.p.od = c.p.od * st["factor"]
+                c.parent.getArea()
+                self.edits += 1
+                self.probe("direct_dimension_assignments")
         elif op == "cache":
             comps = c06.objects_at_level(r, "component")
             c = comps[st["idx"] % len(comps)]
@@ -436,7 +457,20 @@ class Runner:
             vols = [float(x.getVolume()) for x in comps]
         except Exception:  # noqa: BLE001
             vols = None
-        # snapshot may itself have filled caches; take the reference after that
+        from armi.reactor.blocks import Block
+
+        ablks = [x for x in subtree(o) if isinstance(x, Block)][:4]
+        areas = None
+        if not names:
+            for b in ablks:
+                b.clearCache()
+            areas = [float(b.getArea()) for b in ablks]
+            if st.get("coldcache"):
+                # the scope opens on objects whose caches are empty (fresh from a load, or just cleared)
+                for b in ablks:
+                    b.clearCache()
+                self.probe("scope_entered_with_empty_caches")
+        # the state at entry (reading parameters fills no cache)
         want = snapshot(o)
         edits0 = self.edits
         self.sig.append(("enter", depth, type(o).__name__, len(names)))
@@ -483,6 +517,10 @@ class Runner:
                 how="exception" if how == "exit_exc" else "normal",
             )
             break
+        if areas is not None and not diffs:
+            after = [float(b.getArea()) for b in ablks]
+            if any(abs(a - b) > 1e-9 * max(1.0, abs(a)) for a, b in zip(areas, after)):
+                self.fail("C16.cache", f"a block area cached inside the scope leaked out of it: {areas} before, {after} after (parameters are restored)", what="area")
         # (only for scopes that span the whole model: a derived volume of a narrower subtree may
         # legitimately follow an edit made outside the scope's subtree)
         if vols is not None and not diffs and not names and type(o).__name__ in ("Reactor", "Core"):
